@@ -7,7 +7,8 @@
 (*   cfg       [T, ta, nconc, strategy, servers]; times in milliseconds;     *)
 (*             T = configured timeout, ta = per-attempt timeout of a         *)
 (*             connection (ta <= T; the stock provider uses ta = T), ct =    *)
-(*             configured timeout of a TCP connection attempt;               *)
+(*             configured timeout of a TCP connection attempt, cr = case     *)
+(*             randomisation of question names (0x20) configured;            *)
 (*   server    [trusted, udp, tcp, tc, idle]: a script per configured        *)
 (*             transport (empty = transport not configured); the n-th        *)
 (*             request a (server, transport) pair receives is treated        *)
@@ -17,7 +18,7 @@
 (*             it closes a TCP connection that many ms after its last reply  *)
 (*             when nothing is outstanding (and accepts a new connection);   *)
 (*   behaviour [k, lat]: k in answer | nx | trunc | io | busy | timeout |    *)
-(*             sendfail | recvfail;                                          *)
+(*             sendfail | recvfail | casemangle;                             *)
 (*   attempt   [s, p, n, o, q, st, en, res]: request number n to server s    *)
 (*             over p, made at time st on behalf of caller o (the origin),   *)
 (*             res = "" while no reply has been delivered (an attempt the    *)
@@ -44,8 +45,12 @@ BehAt(script, n) == IF n <= Len(script) THEN script[n] ELSE script[Len(script)]
 \* fails in any way -- the send is refused by the local stack at once (sendfail: no route, host or network
 \* unreachable, address not available), the receive fails (recvfail), the connection is reset (io) -- is
 \* a faulty server like any other: the observable outcome is "io"
+\* casemangle (UDP scripts only): the reply echoes the question name in another letter case; with case
+\* randomisation (0x20) configured that is a suspected spoof ("mismatch": the reply is dropped and the
+\* server is asked again over TCP, like after a truncated reply), without it an ordinary answer
 EffKind(cfg, b) ==
-    IF b.k = "sendfail" THEN "io"
+    IF b.k = "casemangle" THEN (IF b.lat >= cfg.ta THEN "timeout" ELSE IF cfg.cr THEN "mismatch" ELSE "answer")
+    ELSE IF b.k = "sendfail" THEN "io"
     ELSE IF b.k = "timeout" \/ b.lat >= cfg.ta THEN "timeout"
     ELSE IF b.k = "recvfail" THEN "io"
     ELSE b.k
@@ -102,7 +107,7 @@ UdpPath(cfg, A, s) ==
     IF ~HasProto(cfg.servers[s], "udp") THEN Inf
     ELSE LET b == NextBeh(cfg, A, s, "udp") IN
          IF EffKind(cfg, b) = "answer" THEN Dur(cfg, b)
-         ELSE IF EffKind(cfg, b) = "trunc" /\ TcpPath(cfg, A, s) < Inf
+         ELSE IF EffKind(cfg, b) \in {"trunc", "mismatch"} /\ TcpPath(cfg, A, s) < Inf
               THEN Dur(cfg, b) + TcpPath(cfg, A, s)
               ELSE Inf
 
@@ -113,6 +118,12 @@ WorstPath(cfg, A, s) ==
     IF ps = {} THEN Inf
     ELSE LET p == CHOOSE x \in ps : \A y \in ps : PathOver(cfg, A, s, y) <= PathOver(cfg, A, s, x)
          IN PathOver(cfg, A, s, p)
+
+\* work bound: one lookup asks one server at most this often.  The pool's documented schedule is the first
+\* request plus four back-off passes per transport, a switch from UDP to TCP after a truncated or
+\* case-mismatched reply, and one resend on a reconnect: 12; with slack
+MaxRequestsPerServer == 16
+RequestsTo(A, o, s) == Cardinality({i \in DOMAIN A : A[i].o = o /\ A[i].s = s /\ A[i].p # "conn"})
 
 Mine(A, o, s) == {i \in DOMAIN A : A[i].o = o /\ A[i].s = s}
 LastOf(S)     == CHOOSE i \in S : \A j \in S : j <= i
@@ -145,10 +156,10 @@ AnswerBy(cfg, A, o, s, c) ==
                  ELSE Inf
             ELSE IF a.res = ""
             THEN IF EffKind(cfg, b) = "answer" THEN a.st + Dur(cfg, b)
-                 ELSE IF EffKind(cfg, b) = "trunc" /\ a.p = "udp" /\ TcpPath(cfg, A, s) < Inf
+                 ELSE IF EffKind(cfg, b) \in {"trunc", "mismatch"} /\ a.p = "udp" /\ TcpPath(cfg, A, s) < Inf
                       THEN a.st + Dur(cfg, b) + TcpPath(cfg, A, s)
                       ELSE Inf
-            ELSE IF a.res = "trunc" /\ a.p = "udp" THEN c + TcpPath(cfg, A, s)
+            ELSE IF a.res \in {"trunc", "mismatch"} /\ a.p = "udp" THEN c + TcpPath(cfg, A, s)
             ELSE IF a.res = "busy" /\ c < (CHOOSE x \in busyAt : \A y \in busyAt : x <= y) + BusyPatience
                  THEN c + WorstPath(cfg, A, s)
             ELSE Inf
@@ -160,6 +171,7 @@ OwedKind(A, o, s) ==
     ELSE LET a == A[LastOf(M)] IN
          IF a.res \in {"", "connected"} THEN "reply-on-its-way"
          ELSE IF a.res = "trunc" THEN "truncated"
+         ELSE IF a.res = "mismatch" THEN "case-mismatch"
          ELSE "busy"
 
 \* servers whose answer would have arrived strictly before the deadline dl; an answer due at
@@ -177,6 +189,7 @@ TrustedNx(cfg, A, o) == \E i \in EndedWith(A, o, "nx") : cfg.servers[A[i].s].tru
 GiveUpKind(cfg, A, lk, d, pend) ==
     IF d.class = "nx" THEN "untrusted-nx-ended-search"
     ELSE IF \E s \in pend : OwedKind(A, lk.origin, s) = "truncated" THEN "truncated-not-retried-over-tcp"
+    ELSE IF \E s \in pend : OwedKind(A, lk.origin, s) = "case-mismatch" THEN "case-mismatch-not-retried-over-tcp"
     ELSE IF \A s \in pend : OwedKind(A, lk.origin, s) = "busy" THEN "busy-server-not-retried"
     ELSE "healthy-server-not-used"
 
